@@ -146,6 +146,36 @@ def _l3b_majority_indel(k: int, variant: int, a0: int, a1: int, a2: int, c0: int
     return S.consensus_clause(frags, columns, 100) is None
 
 
+def _l3c_odd_pair(k: int, odd: int, a0: int, a1: int, a2: int) -> bool:
+    """
+    pre: 1 <= k <= 3
+    pre: 0 <= odd <= 3
+    pre: 0 <= a0 <= 4 and 0 <= a1 <= 4 and 0 <= a2 <= 4
+    post: _
+    """
+    # dove_safe consensus (the methylation path): k inward-facing pairs each showing base a_i at position 100, plus - at insertion
+    # position `odd` (3 = absent) - one pair whose mates point the same way (no safe window exists for it: it contributes nothing).
+    # The vote of every other fragment counts, wherever the odd pair sits in the insertion order.
+    bases = [pick(B, x) for x in [a0, a1, a2][:k]]
+    frags = []
+    for i, b in enumerate(bases):
+        frags.append(S.paired_fragment(FakeRead, 100, b + 'ACG', [30] * 4, 102, 'CGTT', [30] * 4, r1_rev=False))
+    oddpos = pick([0, 1, 2, 3], odd)
+    if oddpos <= k and oddpos < 3:
+        r1 = FakeRead(query_name='odd', reference_name='chr1', reference_start=100, cigartuples=[(0, 4)], seq='TTTT', qual='IIII', is_reverse=False,
+                      is_read1=True, is_read2=False, is_paired=True, tags={'SM': 'lib_1', 'RX': 'ACG'})
+        r2 = FakeRead(query_name='odd', reference_name='chr1', reference_start=100, cigartuples=[(0, 4)], seq='TTTT', qual='IIII', is_reverse=False,
+                      is_read1=False, is_read2=True, is_paired=True, tags={'SM': 'lib_1', 'RX': 'ACG'})
+        from singlecellmultiomics.fragment import Fragment
+        frags.insert(oddpos, Fragment([r1, r2], umi_hamming_distance=0))
+    got = S.molecule_of(frags).get_consensus(dove_safe=True)
+    want = S.vote(bases)
+    key = ('chr1', 100)
+    if want is None:
+        return key not in got
+    return got.get(key) == want
+
+
 def _l4_order(a0: int, a1: int, a2: int, p: int, dup: bool, shift: int) -> bool:
     """
     pre: 0 <= a0 <= 4 and 0 <= a1 <= 4 and 0 <= a2 <= 4
@@ -184,6 +214,8 @@ LEMMAS = [
     dict(name='L3b_majority_indel', fn='_l3b_majority_indel', engine='E1', timeout=_T, replay='replay.C13:replay',
          cases={'quick': [dict(id='k%d_%s' % (k, 'ins' if v == 1 else 'del'), pre=['k == %d' % k, 'variant == %d' % v] + ['a%d == 0' % i for i in range(k, 3)] + ['c%d == 0' % i for i in range(k, 3)]) for k in (1, 2) for v in (1, 2)] +
                          [dict(id='k3_%s_a%d' % ('ins' if v == 1 else 'del', a), pre=['k == 3', 'variant == %d' % v, 'a0 == %d' % a, 'c0 <= 1', 'c1 <= 1', 'c2 <= 1']) for v in (1, 2) for a in range(5)]}),
+    dict(name='L3c_same_strand_pair_skipped', fn='_l3c_odd_pair', engine='E1', timeout=_T, replay='replay.C13:replay',
+         cases={'quick': [dict(id='k%d' % k, pre=['k == %d' % k] + ['a%d == 0' % i for i in range(k, 3)]) for k in (1, 2)] + [dict(id='k3_a%d' % a, pre=['k == 3', 'a0 == %d' % a]) for a in range(5)]}),
     dict(name='L4_order_duplication', fn='_l4_order', engine='E1', timeout=_T, replay='replay.C13:replay',
          cases={'quick': [dict(id='a%d_s%d_%s' % (a, sh, 'dup' if du else 'once'), pre=['a0 == %d' % a, 'shift == %d' % sh, 'dup == %s' % bool(du)]) for a in range(5) for sh in (0, 1) for du in (0, 1)]}),
 ]
